@@ -65,7 +65,7 @@ pub fn run(args: &Args) {
     // (a) unit level
     let samples = Samples::new(2);
     let cases = args.tier.pick(6000, 240000);
-    let result = crate::run_prop_parallel_budget(&report, "c18-unit", cases, 1500, unit_seed, |seed| {
+    let result = crate::run_prop_parallel_budget(&report, "c18-unit", cases, 500, unit_seed, |seed| {
         let (case, init_labels) = concretise(seed);
         let r = run_unit(&base, &case);
         let key = vcore::hash_of(&case);
@@ -106,7 +106,7 @@ pub fn run(args: &Args) {
 
     // (b) end to end
     let cases = args.tier.pick(480, 16000);
-    let result = crate::run_prop_parallel_budget(&report, "c18-histories", cases, 200, c18_hist_seed, |seed| {
+    let result = crate::run_prop_parallel_budget(&report, "c18-histories", cases, 100, c18_hist_seed, |seed| {
         let built = build_history(seed);
         let r = run_history(&base, &built.history, Prop::C18);
         let key = vcore::hash_of(&built.history);
